@@ -23,12 +23,13 @@ Qed.
 Lemma b_dict_to_iterable : forall items, GApi._dict_to_iterable items = Api._dict_to_iterable items.
 Proof.
   intros items. unfold GApi._dict_to_iterable, Api._dict_to_iterable. cbv zeta.
-  (* the sort key may be spelled differently: it is compared pointwise *)
+  (* however the two groups are obtained in the source (sorted on a boolean key, an explicit partition loop): both
+     sides are `map _ (filter p items ++ filter q items)`; the maps and the predicates are compared pointwise *)
+  rewrite ApiForms.sorted_items_partition. unfold stable_sort_by. cbn [app].
   match goal with
-  | |- map ?f (stable_sort_by ?k items) = map ?g (Api.sorted_items items) =>
-      replace (stable_sort_by k items) with (Api.sorted_items items);
-      [ apply map_ext; intros [a b]; reflexivity | ]
+  | |- map ?f ?l = map ?g ?r => transitivity (map g l); [ apply map_ext; intros [a b]; reflexivity | f_equal ]
   end.
-  rewrite <- b_stable_sort_by_colon. unfold stable_sort_by. f_equal; apply filter_ext; intros k; reflexivity.
+  f_equal; apply filter_ext; intros k; unfold ApiForms.colon, ApiForms.ncolon;
+    rewrite ?b_to_bytes, ?startswith_colon, ?negb_involutive; reflexivity.
 Qed.
 Print Assumptions b_dict_to_iterable.
